@@ -190,6 +190,28 @@ func main() {
 		}
 		os.RemoveAll(out)
 	}
+	// an output directory that already holds files: the longer output of the same packages under
+	// -typecheck -source-comments, stale files with a tail, an unrelated file; what a run leaves for
+	// its packages must be what it leaves in an empty directory
+	{
+		out := filepath.Join(root, "dirty")
+		os.RemoveAll(out)
+		pre := exec.Command(*goose, "-out", out, "-ignore-errors", "-typecheck", "-source-comments", "./g/...")
+		pre.Dir = mod
+		pre.Env = goEnv()
+		pre.Run()
+		for k, v := range ref {
+			if len(k)%3 == 0 {
+				os.WriteFile(filepath.Join(out, k), []byte(v+"\n(* left over *)\nDefinition stale : val := #0.\n"), 0o644)
+			}
+		}
+		again := exec.Command(*goose, "-out", out, "-ignore-errors", "./g/...")
+		again.Dir = mod
+		again.Env = goEnv()
+		again.Run()
+		cmp("rerun-into-a-used-output-directory", snapshot(out), ref)
+		os.RemoveAll(out)
+	}
 	// subsets: every file a subset writes equals the file of the full run
 	r := master.Fork()
 	nsub := 0
